@@ -374,7 +374,7 @@ def population(rng, date, n_hh=8, params=None, archetypes=None, corner=None,
     df["monate_elterngeldbezug"] = np.where(has_baby, R.integers(0, 15, n), 0)
     df["budgetsatz_erzieh"] = has_baby & (R.random(n) < 0.3)
     married = df["p_id_ehepartner"].to_numpy() >= 0
-    df["steuerklasse"] = np.where(married, R.choice([3, 4, 5], n), np.where(df["alleinerz"], 2, 1))
+    df["steuerklasse"] = np.where(R.random(n) < 0.06, 6, np.where(married, R.choice([3, 4, 5], n), np.where(df["alleinerz"], 2, 1)))
 
     if heterogeneous:
         # members of every unit differ in every individual-level input where validity allows
@@ -459,3 +459,20 @@ def digest(df):
         h.update(c.encode())
         h.update(np.ascontiguousarray(df[c].to_numpy()).tobytes())
     return h.hexdigest()[:16]
+
+
+def branch_reach(rng, df, date, params):
+    """Overwrite some persons' inputs so that rarely entered branches are reached while the
+    population stays valid (see C08)."""
+    df = df.copy()
+    n = len(df)
+    R = rng
+    alter = df["alter"].to_numpy()
+    year = date.year
+    # early retirees with earnings around / above the additional-earnings limits
+    early = (alter >= 60) & (alter <= 67) & (R.random(n) < 0.6)
+    df.loc[early, "rentner"] = True
+    df.loc[early, "jahr_renteneintr"] = np.minimum(df.loc[early, "geburtsjahr"] + R.integers(60, 66, int(early.sum())), year)
+    df.loc[early, "bruttolohn_m"] = R.choice([0.0, 400.0, 525.0, 526.0, 1200.0, 3000.0, 4000.0, 9000.0], int(early.sum()))
+    df.loc[early, "höchster_bruttolohn_letzte_15_jahre_vor_rente_y"] = R.choice([0.0, 20000.0, 60000.0], int(early.sum()))
+    return df
